@@ -14,7 +14,12 @@ use std::time::Duration;
 /// A – B – C, channels A→B (index 0) and B→C (index 1). `async_from_start` lists nodes whose
 /// persister answers InProgress from the very first call (so channel opening is covered too).
 pub fn line_world(ct: Ct, n: usize, async_from_start: &[usize]) -> (World, Vec<ChannelId>) {
-	let mut w = World::new((0..n).map(|_| user_config(ct)).collect(), 253);
+	line_world_deferred(ct, n, async_from_start, &[])
+}
+
+/// `deferred` lists the nodes whose ChainMonitor runs in deferred mode.
+pub fn line_world_deferred(ct: Ct, n: usize, async_from_start: &[usize], deferred: &[usize]) -> (World, Vec<ChannelId>) {
+	let mut w = World::new_deferred((0..n).map(|_| user_config(ct)).collect(), 253, deferred);
 	for i in async_from_start {
 		w.nodes[*i].persist.set_async_all(true);
 	}
@@ -39,11 +44,13 @@ pub struct C09Scn {
 	pub k: u32,
 	pub async_from_start: Vec<usize>,
 	pub max_disconnects: u32,
+	/// nodes whose ChainMonitor runs in deferred mode
+	pub deferred: Vec<usize>,
 }
 
 /// World in which no channel exists yet: the scenario's first operation opens one.
 fn build_open_flow(s: &C09Scn) -> WorldSys {
-	let mut w = World::new((0..s.nodes).map(|_| user_config(s.ct)).collect(), 253);
+	let mut w = World::new_deferred((0..s.nodes).map(|_| user_config(s.ct)).collect(), 253, &s.deferred);
 	for i in s.async_from_start.iter() {
 		w.nodes[*i].persist.set_async_all(true);
 	}
@@ -66,7 +73,7 @@ pub fn build(s: &C09Scn) -> WorldSys {
 	if s.ops.iter().any(|o| matches!(o, Op::Open { .. })) {
 		return build_open_flow(s);
 	}
-	let (w, chans) = line_world(s.ct, s.nodes, &s.async_from_start);
+	let (w, chans) = line_world_deferred(s.ct, s.nodes, &s.async_from_start, &s.deferred);
 	let infos = chan_infos(&w, &chans);
 	let mut po = PersistOrderOracle::new(&w, infos.clone());
 	po.check_initial = true;
@@ -75,6 +82,7 @@ pub fn build(s: &C09Scn) -> WorldSys {
 	sys.ops_first = s.ops_first;
 	sys.dev = s.dev.clone();
 	sys.max_disconnects = s.max_disconnects;
+	sys.crash_nodes = s.deferred.clone(); // nodes whose background task may stall (HoldManager)
 	for i in s.async_from_start.iter() {
 		sys.async_on[*i] = true;
 	}
@@ -112,6 +120,7 @@ pub fn scenarios(tier: Tier) -> Vec<C09Scn> {
 			k: if th { 2 } else { 1 },
 			async_from_start: vec![],
 			max_disconnects: 0,
+			deferred: vec![],
 		});
 		// both nodes async from the start (covers channel opening), all completion timings
 		v.push(C09Scn {
@@ -124,6 +133,7 @@ pub fn scenarios(tier: Tier) -> Vec<C09Scn> {
 			k: if th { 1 } else { 0 },
 			async_from_start: vec![0, 1],
 			max_disconnects: 0,
+			deferred: vec![],
 		});
 		// the opening flow itself: either side's initial monitor write slow (never completing until the
 		// end), the connection dropping anywhere, the funding confirming at any point
@@ -149,6 +159,7 @@ pub fn scenarios(tier: Tier) -> Vec<C09Scn> {
 			k: if th { 3 } else { 2 },
 			async_from_start: vec![0, 1],
 			max_disconnects: 1,
+			deferred: vec![],
 		});
 		// forwarding node async from the start: upstream claim must wait for the preimage update
 		v.push(C09Scn {
@@ -161,6 +172,7 @@ pub fn scenarios(tier: Tier) -> Vec<C09Scn> {
 			k: if th { 1 } else { 0 },
 			async_from_start: vec![1],
 			max_disconnects: 0,
+			deferred: vec![],
 		});
 		v.push(C09Scn {
 			name: format!("{}-abc-forward-fail", n),
@@ -172,6 +184,7 @@ pub fn scenarios(tier: Tier) -> Vec<C09Scn> {
 			k: if th { 1 } else { 0 },
 			async_from_start: vec![1],
 			max_disconnects: 0,
+			deferred: vec![],
 		});
 		// several payments in flight through B while B delays handling its events: monitor updates get
 		// blocked behind unhandled events while new updates (learned preimages) must still fly past them
@@ -194,6 +207,7 @@ pub fn scenarios(tier: Tier) -> Vec<C09Scn> {
 			k: if th { 2 } else { 1 },
 			async_from_start: vec![],
 			max_disconnects: 0,
+			deferred: vec![],
 		});
 		// completion during disconnection
 		v.push(C09Scn {
@@ -206,6 +220,106 @@ pub fn scenarios(tier: Tier) -> Vec<C09Scn> {
 			k: if th { 2 } else { 1 },
 			async_from_start: vec![1],
 			max_disconnects: 1,
+			deferred: vec![],
+		});
+		// a revoke_and_ack (+ commitment_signed) lost to a disconnection, then - while the peer is away - a
+		// different update (the preimage of a payment held so far) whose write stays in flight across the
+		// reconnection: the channel_reestablish is handled during the in-flight update, and when it completes
+		// exactly the lost messages must be released, revoke_and_ack first
+		v.push(C09Scn {
+			name: format!("{}-ab-lost-raa-claim-inflight-reestablish", n),
+			ct,
+			nodes: 2,
+			ops: vec![
+				Op::Send { from: 1, hops: vec![(0, 0)], amount_msat: 30_000_000, policy: ClaimPolicy::Hold },
+				Op::Send { from: 1, hops: vec![(0, 0)], amount_msat: 20_000_000, policy: ClaimPolicy::Claim },
+				Op::ClaimHeld { pay: 0 },
+			],
+			ops_first: false,
+			dev: Deviations {
+				reorder: None,
+				early_op: Some(1),
+				disconnect: Some(1),
+				async_persist: None,
+				complete_reorder: Some(1),
+				..Deviations::default()
+			},
+			k: if th { 3 } else { 2 },
+			async_from_start: vec![0],
+			max_disconnects: 1,
+			deferred: vec![],
+		});
+		// ---- deferred ChainMonitor mode: monitor operations are queued and executed by the node's background task
+		// (count the queue, write the manager, flush that many); the background task may stall at any point
+		// (HoldManager: one sticky deviation), persistence at flush time is synchronous or asynchronous
+		for (tag, asyncs) in [("sync", vec![]), ("async", vec![0usize, 1])] {
+			let ddev = Deviations {
+				reorder: Some(1),
+				early_op: Some(1),
+				async_persist: None,
+				hold_manager: Some(1),
+				complete_reorder: if th { Some(0) } else { Some(1) },
+				..Deviations::default()
+			};
+			v.push(C09Scn {
+				name: format!("{}-ab-claim-deferred-{}", n, tag),
+				ct,
+				nodes: 2,
+				ops: vec![Op::Send { from: 0, hops: vec![(1, 0)], amount_msat: 50_000_000, policy: ClaimPolicy::Claim }],
+				ops_first: true,
+				dev: ddev.clone(),
+				k: if th { 2 } else { 1 },
+				async_from_start: asyncs.clone(),
+				max_disconnects: 0,
+				deferred: vec![0, 1],
+			});
+			v.push(C09Scn {
+				name: format!("{}-ab-disconnect-deferred-{}", n, tag),
+				ct,
+				nodes: 2,
+				ops: vec![Op::Send { from: 0, hops: vec![(1, 0)], amount_msat: 50_000_000, policy: ClaimPolicy::Fail }],
+				ops_first: true,
+				dev: Deviations { disconnect: Some(1), ..ddev.clone() },
+				k: if th { 2 } else { 1 },
+				async_from_start: asyncs.clone(),
+				max_disconnects: 1,
+				deferred: vec![0, 1],
+			});
+			v.push(C09Scn {
+				name: format!("{}-abc-forward-claim-deferred-{}", n, tag),
+				ct,
+				nodes: 3,
+				ops: vec![Op::Send { from: 0, hops: vec![(1, 0), (2, 1)], amount_msat: 50_000_000, policy: ClaimPolicy::Claim }],
+				ops_first: true,
+				dev: ddev.clone(),
+				k: if th { 2 } else { 1 },
+				async_from_start: if asyncs.is_empty() { vec![] } else { vec![1] },
+				max_disconnects: 0,
+				deferred: vec![1],
+			});
+		}
+		v.push(C09Scn {
+			name: format!("{}-ab-open-flow-deferred", n),
+			ct,
+			nodes: 2,
+			ops: vec![
+				Op::Open { from: 0, to: 1 },
+				Op::ConfirmFunding,
+				Op::Send { from: 0, hops: vec![(1, 0)], amount_msat: 50_000_000, policy: ClaimPolicy::Claim },
+			],
+			ops_first: false,
+			dev: Deviations {
+				reorder: Some(1),
+				early_op: Some(1),
+				disconnect: Some(1),
+				hold_manager: Some(1),
+				complete_reorder: None,
+				..Deviations::default()
+			},
+			k: if th { 3 } else { 2 },
+			async_from_start: vec![],
+			max_disconnects: 1,
+			deferred: vec![0, 1],
 		});
 	}
 	v
@@ -245,13 +359,15 @@ pub fn run(args: &Args) -> i32 {
 				"c09-commitment-signed-checked",
 				"c09-revoke-and-ack-checked",
 				"c09-fulfill-checked",
+				"deferred-flush",
+				"deferred-operations-queued-while-background-task-stalled",
 			],
 		);
 	} else {
 		ev.set("witnesses", json!(crate::runner::witnesses()));
 	}
 	ev.assume("the Persist contract is respected by the harness: Completed→InProgress at any time, back only after a restart; ids completed in any order");
-	ev.assume("immediate (non-deferred) ChainMonitor mode");
+	ev.assume("deferred ChainMonitor mode is driven the way lightning-background-processor drives it: when the manager needs persisting, count the queued operations, write the manager, flush that many (the task may stall for any length of time)");
 	mc_common::findings::conclude("C09", &r.violations, &mut ev)
 }
 
